@@ -1,0 +1,11 @@
+//go:build verif
+
+// Contracts for the contract-based deductive verification of this package
+// (checked by /verif/bin/govc). This file contains only comments: with the
+// build tag off it is not compiled, with the tag on it adds no declaration.
+
+package validate
+
+//@ func MaximumInt
+//@   mode bv
+//@   ensures[C13] (result != nil) == ((!exclusive && data > maximum) || (exclusive && data >= maximum))
